@@ -153,3 +153,53 @@ func tagRules(c *core.Ctx, r *core.Report, rule string, want ...string) {
 		return ""
 	}, cons, need)
 }
+
+// fieldScanRules: the per-field callback of the definition's field scan (which fields become injection points).
+func fieldScanRules(c *core.Ctx, r *core.Report, rule string) {
+	rs, _, lit, und := scanTable(c)
+	if und != "" {
+		r.Undecided(rule, "scan-table", "", "abstract interpretation left the model: "+und)
+		return
+	}
+	rs.report(c, r, lit, func(string) string { return rule }, "scan-table@"+core.FnName(lit), scanRows)
+}
+
+// tagScanRules: the tag scanner (one property per matching field, registered on the component's definition).
+func tagScanRules(c *core.Ctx, r *core.Report, rule string) {
+	trs, _, tfn, tund := tagScanTable(c)
+	if tund != "" {
+		r.Undecided(rule, "tag-scan-table", "", "abstract interpretation left the model: "+tund)
+		return
+	}
+	trs.report(c, r, tfn, func(string) string { return rule }, "tag-scan-table@"+core.FnName(tfn), tagScanRows)
+}
+
+// presenceRules: the placeholder callback's presence rule (configured value vs default).
+func presenceRules(c *core.Ctx, r *core.Report, rule string) {
+	n := 0
+	for _, p := range withRole(builtinProcessors(c), "quote", true) {
+		lit := quoteCallback(c, p)
+		if lit == nil {
+			r.Undecided(rule, p.Name()+":callback", c.FnPos(p.Props), "placeholder callback not found")
+			continue
+		}
+		n++
+		rs, _, und := presenceTable(c, p, lit)
+		cons := "presence-table:" + p.Name()
+		if und != "" {
+			r.Undecided(rule, cons, c.FnPos(lit), "abstract interpretation left the model: "+und)
+			continue
+		}
+		rs.report(c, r, lit, func(string) string { return rule }, cons, presenceRows)
+	}
+	r.Floor(rule, "registered placeholder processor", n, 1)
+}
+
+// chainActiveRules: post-processors created during the bootstrap are processed by the processors ordered before them.
+func chainActiveRules(c *core.Ctx, r *core.Report, rule string) {
+	if bs, why := findBootstrap(c); bs != nil {
+		bsTable(c, r, bs, rule, map[string]bool{"chain-active": true})
+	} else {
+		r.Undecided(rule, "bootstrap", "", why)
+	}
+}
